@@ -2,7 +2,7 @@
    Model: Wal/Wal.v (hand-written mirror of internal/writeaheadlog/wal.go: directory of files, handle with
    closed files + active file), byte layer over an abstract self-delimiting codec. *)
 From Coq Require Import ZArith List Bool Sorting.Permutation.
-From F3 Require Import Wal WalProofs.
+From F3 Require Import Wal WalProofs Codec CodecProofs SchemasGen.
 Import ListNotations.
 Open Scope Z_scope.
 
@@ -21,6 +21,29 @@ Theorem c11_clean_read : forall (entry : Type) (enc : entry -> list Z) (dec : li
   forall es, read_file entry dec (concat (map enc es)) = es.
 Proof. exact clean_read. Qed.
 Print Assumptions c11_clean_read.
+
+(* the contract is not an assumption for the real log: the WAL entry of the node is a GMessage (wal.go), whose codec
+   schema s_walEntry is REGENERATED from /repo's cbor_gen.go on every run (Gen/SchemasGen.v); for every list of entries
+   within the limits of the Go types, and any torn tail of one more entry, the file reads back exactly the complete
+   entries -- no acknowledged entry hidden, no phantom entry *)
+Theorem c11_wal_entry_schema_wf : wf_schema s_walEntry.
+Proof. apply wf_schemab_sound. vm_compute. reflexivity. Qed.
+Print Assumptions c11_wal_entry_schema_wf.
+Theorem c11_wal_entry_torn_tail : forall cid_ok es e p q,
+  Forall (wfv cid_ok s_walEntry) es -> wfv cid_ok s_walEntry e -> enc_of cid_ok s_walEntry e = p ++ q -> q <> [] ->
+  read_file value (dec_of cid_ok s_walEntry) (concat (map (enc_of cid_ok s_walEntry) es) ++ p) = es.
+Proof.
+  intros cid_ok es e p q Hes He. destruct (codec_contract cid_ok s_walEntry c11_wal_entry_schema_wf) as [A [B C]].
+  apply (torn_tail_read_good value _ _ (wfv cid_ok s_walEntry) A B C es e p q Hes He).
+Qed.
+Print Assumptions c11_wal_entry_torn_tail.
+Theorem c11_wal_entry_clean_read : forall cid_ok es, Forall (wfv cid_ok s_walEntry) es ->
+  read_file value (dec_of cid_ok s_walEntry) (concat (map (enc_of cid_ok s_walEntry) es)) = es.
+Proof.
+  intros cid_ok es Hes. destruct (codec_contract cid_ok s_walEntry c11_wal_entry_schema_wf) as [A [B C]].
+  apply (clean_read_good value _ _ (wfv cid_ok s_walEntry) A B C es (decode_nil cid_ok s_walEntry) Hes).
+Qed.
+Print Assumptions c11_wal_entry_clean_read.
 
 Theorem c11_append_all : forall w r fresh w', wfw w -> append w r fresh = inr w' -> all w' = all w ++ [r] /\ wfw w'.
 Proof. exact append_all. Qed.
